@@ -3,7 +3,9 @@
 //! Verbs
 //!   uw <bm|lb0|lb1> <b|v|f> <win> <spare> [(msg <name> <mt> <seq>)] <val>...   real unchecked writer in an exact window
 //!   ur <hex> <step>...      real unchecked reader; step := (read <tt>) | (get <0|1> <len>) | (msg)
-//! Streams: C11
+//!   a <bin|le|cmp> (<ev>...) <step>...   real async protocol over a scripted AsyncRead; ev := p | <hex chunk>
+//!        step := (read <tt>) | (skip <tt>) | (skipd <tt> <d>) | (msg) | (sb) | (se) | (fb) | (fe)
+//! Streams: C11, C12
 use std::io::Write;
 
 use bytes::{BufMut, Bytes, BytesMut};
@@ -28,6 +30,7 @@ pub fn exec(verb: &str, items: &[Sexp], o: &mut Oracle) -> Option<String> {
     match verb {
         "uw" => Some(uw(items, o).unwrap_or_else(|| "bad-request".into())),
         "ur" => Some(ur(items, o).unwrap_or_else(|| "bad-request".into())),
+        "a" => Some(av(items, o).unwrap_or_else(|| "bad-request".into())),
         _ => None,
     }
 }
@@ -261,6 +264,212 @@ fn ur(items: &[Sexp], o: &mut Oracle) -> Option<String> {
     Some(format!("ok {} idx={} adv={}", if outs.is_empty() { "-".into() } else { outs.join(" ") }, idx, adv))
 }
 
+// ------------------------------------------------------------------------------------------ C12 async
+
+use std::collections::VecDeque;
+use std::future::Future;
+use std::pin::Pin;
+use std::task::{Context, Poll, Waker};
+
+use pilota::thrift::{
+    binary::TAsyncBinaryProtocol, binary_le::TAsyncBinaryProtocol as TAsyncBinaryLeProtocol, compact::TAsyncCompactProtocol,
+    compact::TCompactInputProtocol, binary_le::TBinaryProtocol as TBinaryLeProtocol, TAsyncInputProtocol, TType,
+};
+use tokio::io::{AsyncRead, ReadBuf};
+
+#[derive(Clone, Debug)]
+enum Ev { Pending, Data(Vec<u8>) }
+
+/// a reader that delivers exactly the scripted poll outcomes and counts the bytes handed out
+struct Scripted { events: VecDeque<Ev>, pulled: usize }
+
+impl AsyncRead for Scripted {
+    fn poll_read(mut self: Pin<&mut Self>, cx: &mut Context<'_>, buf: &mut ReadBuf<'_>) -> Poll<std::io::Result<()>> {
+        let this = &mut *self;
+        match this.events.front_mut() {
+            None => Poll::Ready(Ok(())),                                   // end of stream
+            Some(Ev::Pending) => { this.events.pop_front(); cx.waker().wake_by_ref(); Poll::Pending }
+            Some(Ev::Data(d)) => {
+                let n = d.len().min(buf.remaining());
+                buf.put_slice(&d[..n]);
+                d.drain(..n);
+                if d.is_empty() { this.events.pop_front(); }
+                this.pulled += n;
+                Poll::Ready(Ok(()))
+            }
+        }
+    }
+}
+
+/// single-thread executor: poll with a no-op waker until ready (tokio's runtime is not available)
+fn block_on<F: Future>(f: F) -> F::Output {
+    let mut f = Box::pin(f);
+    let mut cx = Context::from_waker(Waker::noop());
+    let mut spins = 0usize;
+    loop {
+        if let Poll::Ready(v) = f.as_mut().poll(&mut cx) { return v; }
+        spins += 1;
+        assert!(spins < 10_000_000, "future never completes");
+    }
+}
+
+#[derive(Clone, Copy)]
+enum AStep { Read(TT), Skip(TT), SkipD(TT, i8), Msg, Sb, Se, Fb, Fe }
+
+fn asteps(xs: &[Sexp]) -> Option<Vec<AStep>> {
+    xs.iter().map(|x| {
+        let l = x.list()?;
+        let tt = |i: usize| l.get(i).and_then(|x| x.atom()).and_then(TT::of_name);
+        Some(match l.first()?.atom()? {
+            "read" => AStep::Read(tt(1)?),
+            "skip" => AStep::Skip(tt(1)?),
+            "skipd" => AStep::SkipD(tt(1)?, l.get(2)?.atom()?.parse().ok()?),
+            "msg" => AStep::Msg, "sb" => AStep::Sb, "se" => AStep::Se, "fb" => AStep::Fb, "fe" => AStep::Fe,
+            _ => return None,
+        })
+    }).collect()
+}
+
+/// dynamic reading interpreter over `TAsyncInputProtocol` (the async twin of `thrift::read_val`)
+fn read_val_async<'a, P: TAsyncInputProtocol>(p: &'a mut P, tt: TT) -> Pin<Box<dyn Future<Output = Result<Val, ThriftException>> + 'a>> {
+    Box::pin(async move {
+        Ok(match tt {
+            TT::Bool => Val::Bool(p.read_bool().await?),
+            TT::I8 => Val::I8(p.read_i8().await?),
+            TT::I16 => Val::I16(p.read_i16().await?),
+            TT::I32 => Val::I32(p.read_i32().await?),
+            TT::I64 => Val::I64(p.read_i64().await?),
+            TT::Double => Val::Dbl(p.read_double().await?.to_bits()),
+            TT::Binary => Val::Bin(p.read_bytes().await?.to_vec()),
+            TT::Uuid => Val::Uuid(p.read_uuid().await?),
+            TT::Struct => {
+                p.read_struct_begin().await?;
+                let mut fs = vec![];
+                loop {
+                    let f = p.read_field_begin().await?;
+                    if f.field_type == TType::Stop { break; }
+                    let v = read_val_async(p, TT::of_p(f.field_type)).await?;
+                    p.read_field_end().await?;
+                    fs.push((f.id.unwrap_or(0), v));
+                }
+                p.read_struct_end().await?;
+                Val::Struct(fs)
+            }
+            TT::List => {
+                let l = p.read_list_begin().await?;
+                let et = TT::of_p(l.element_type);
+                let mut xs = vec![];
+                for _ in 0..l.size { xs.push(read_val_async(p, et).await?); }
+                p.read_list_end().await?;
+                Val::List(et, xs)
+            }
+            TT::Set => {
+                let l = p.read_set_begin().await?;
+                let et = TT::of_p(l.element_type);
+                let mut xs = vec![];
+                for _ in 0..l.size { xs.push(read_val_async(p, et).await?); }
+                p.read_set_end().await?;
+                Val::Set(et, xs)
+            }
+            TT::Map => {
+                let m = p.read_map_begin().await?;
+                let (kt, vt) = (TT::of_p(m.key_type), TT::of_p(m.value_type));
+                let mut kvs = vec![];
+                for _ in 0..m.size { let k = read_val_async(p, kt).await?; let v = read_val_async(p, vt).await?; kvs.push((k, v)); }
+                p.read_map_end().await?;
+                Val::Map(kt, vt, kvs)
+            }
+            TT::Stop | TT::Void => return Err(pilota::thrift::new_protocol_exception(pilota::thrift::ProtocolExceptionKind::InvalidData, "cannot read stop/void")),
+        })
+    })
+}
+
+async fn run_async<P: TAsyncInputProtocol>(p: &mut P, steps: &[AStep]) -> (Vec<String>, Option<&'static str>) {
+    let mut items = vec![];
+    for st in steps {
+        let r: Result<String, ThriftException> = match *st {
+            AStep::Read(tt) => read_val_async(p, tt).await.map(|v| v.sexp()),
+            AStep::Skip(tt) => p.skip(tt.to_p()).await.map(|_| "skipped".to_string()),
+            AStep::SkipD(tt, d) => p.skip_till_depth(tt.to_p(), d).await.map(|_| "skipped".to_string()),
+            AStep::Msg => p.read_message_begin().await.map(|id| format!("(msg {} {} {})", hex(id.name.as_bytes()), id.message_type as u8, id.sequence_number)),
+            AStep::Sb => p.read_struct_begin().await.map(|_| "sb".to_string()),
+            AStep::Se => p.read_struct_end().await.map(|_| "se".to_string()),
+            AStep::Fb => p.read_field_begin().await.map(|f| format!("(field {} {})", TT::of_p(f.field_type).name(), f.id.unwrap_or(0))),
+            AStep::Fe => p.read_field_end().await.map(|_| "fe".to_string()),
+        };
+        match r { Ok(s) => items.push(s), Err(e) => return (items, Some(err_class(&e))) }
+    }
+    (items, None)
+}
+
+/// the same script on the in-memory protocol over the flattened bytes
+fn run_sync<P: TInputProtocol>(p: &mut P, steps: &[AStep]) -> (Vec<String>, Option<&'static str>) {
+    let mut items = vec![];
+    for st in steps {
+        let r: Result<String, ThriftException> = match *st {
+            AStep::Read(tt) => read_val(p, tt).map(|v| v.sexp()),
+            AStep::Skip(tt) => p.skip(tt.to_p()).map(|_| "skipped".to_string()),
+            AStep::SkipD(tt, d) => p.skip_till_depth(tt.to_p(), d).map(|_| "skipped".to_string()),
+            AStep::Msg => p.read_message_begin().map(|id| format!("(msg {} {} {})", hex(id.name.as_bytes()), id.message_type as u8, id.sequence_number)),
+            AStep::Sb => p.read_struct_begin().map(|_| "sb".to_string()),
+            AStep::Se => p.read_struct_end().map(|_| "se".to_string()),
+            AStep::Fb => p.read_field_begin().map(|f| format!("(field {} {})", TT::of_p(f.field_type).name(), f.id.unwrap_or(0))),
+            AStep::Fe => p.read_field_end().map(|_| "fe".to_string()),
+        };
+        match r { Ok(s) => items.push(s), Err(e) => return (items, Some(err_class(&e))) }
+    }
+    (items, None)
+}
+
+fn events_of(x: &Sexp) -> Option<Vec<Ev>> {
+    let mut out = vec![];
+    for e in x.list()? {
+        let a = e.atom()?;
+        if a == "p" { out.push(Ev::Pending); } else { let d = unhex(a)?; if !d.is_empty() { out.push(Ev::Data(d)); } }
+    }
+    Some(out)
+}
+
+fn av(items: &[Sexp], o: &mut Oracle) -> Option<String> {
+    let proto = Proto::of(items.get(1)?.atom()?)?;
+    if proto == Proto::UBin { return None; }
+    let events = events_of(items.get(2)?)?;
+    let steps = asteps(&items[3..])?;
+    let flat: Vec<u8> = events.iter().flat_map(|e| match e { Ev::Data(d) => d.clone(), _ => vec![] }).collect();
+    let mut rd = Scripted { events: events.into(), pulled: 0 };
+    let (aitems, aerr) = match proto {
+        Proto::Bin => { let mut p = TAsyncBinaryProtocol::new(&mut rd); block_on(run_async(&mut p, &steps)) }
+        Proto::Le => { let mut p = TAsyncBinaryLeProtocol::new(&mut rd); block_on(run_async(&mut p, &steps)) }
+        _ => { let mut p = TAsyncCompactProtocol::new(&mut rd); block_on(run_async(&mut p, &steps)) }
+    };
+    let pulled = rd.pulled;
+    // ---- the property on the implementation: the in-memory decoder on the same bytes
+    let mut b = Bytes::copy_from_slice(&flat);
+    let (sitems, serr) = match proto {
+        Proto::Bin => { let mut p = TBinaryProtocol::new(&mut b, false); run_sync(&mut p, &steps) }
+        Proto::Le => { let mut p = TBinaryLeProtocol::new(&mut b, false); run_sync(&mut p, &steps) }
+        _ => { let mut p = TCompactInputProtocol::new(&mut b); run_sync(&mut p, &steps) }
+    };
+    let consumed = flat.len() - b.len();
+    if pulled > flat.len() { o.fail("C12", format!("async reader pulled {} bytes of a {}-byte stream", pulled, flat.len())); }
+    match (&aerr, &serr) {
+        (None, None) => {
+            if aitems != sitems { o.fail("C12", format!("async values {} != in-memory values {}", aitems.join(" "), sitems.join(" "))); }
+            if pulled != consumed { o.fail("C12", format!("async pulled {} bytes, in-memory decoder consumed {}", pulled, consumed)); }
+        }
+        (Some(_), Some(_)) => {
+            if aitems.len() != sitems.len() { o.fail("C12", format!("async failed at step {}, in-memory at step {}", aitems.len(), sitems.len())); }
+            else if aitems != sitems { o.fail("C12", "values before the failing step differ".into()); }
+        }
+        (None, Some(c)) => o.fail("C12", format!("async decoder accepts what the in-memory decoder rejects ({} at step {})", c, sitems.len())),
+        (Some(c), None) => o.fail("C12", format!("async decoder fails ({} at step {}) where the in-memory decoder succeeds", c, aitems.len())),
+    }
+    Some(match aerr {
+        None => format!("ok {} pulled={}", if aitems.is_empty() { "-".into() } else { aitems.join(" ") }, pulled),
+        Some(c) => format!("{} after={}", c, aitems.len()),
+    })
+}
+
 // ------------------------------------------------------------------------------------------ generators
 
 fn payload(n: usize, seed: u64) -> Val { Val::Bin((0..n).map(|i| (seed.wrapping_mul(i as u64 + 3) >> 5) as u8).collect()) }
@@ -272,6 +481,143 @@ fn emit_uw(out: &mut dyn Write, buf: BufK, api: &str, slack: usize, tail: usize,
     if let Some(m) = msg { line.push(' '); line.push_str(&m.sexp()); }
     for v in vals { line.push(' '); line.push_str(&v.sexp()); }
     let _ = writeln!(out, "{}", line);
+}
+
+
+/// events text for `bytes` cut at the given positions, with `pend(i)` pending polls before chunk i
+fn events_text(bytes: &[u8], cuts: &[usize], pend: &dyn Fn(usize) -> usize) -> String {
+    let mut parts: Vec<String> = vec![];
+    let mut last = 0usize;
+    let mut idx = 0usize;
+    let mut cs: Vec<usize> = cuts.iter().copied().filter(|c| *c > 0 && *c < bytes.len()).collect();
+    cs.sort(); cs.dedup();
+    cs.push(bytes.len());
+    for c in cs {
+        for _ in 0..pend(idx) { parts.push("p".into()); }
+        if c > last { parts.push(hex(&bytes[last..c])); }
+        last = c; idx += 1;
+    }
+    for _ in 0..pend(idx) { parts.push("p".into()); }
+    format!("({})", parts.join(" "))
+}
+
+fn random_events(r: &mut Rng, bytes: &[u8]) -> String {
+    let n = bytes.len();
+    let mode = r.below(5);
+    let cuts: Vec<usize> = match mode {
+        0 => vec![],                                                   // one chunk
+        1 => (1..n).collect(),                                         // one byte at a time
+        2 => (0..1 + r.below(3)).map(|_| r.below(n.max(1) as u64) as usize).collect(),
+        _ => (1..n).filter(|_| r.chance(1, 3)).collect(),
+    };
+    let pm = r.below(3);
+    let seed = r.next();
+    events_text(bytes, &cuts, &|i| match pm { 0 => 0, 1 => ((seed >> (i % 60)) & 1) as usize, _ => ((seed.wrapping_mul(i as u64 + 1) >> 13) % 3) as usize })
+}
+
+fn enc_with(proto: Proto, vals: &[Val]) -> Vec<u8> { thrift::write_all(proto, BufK::Bm, StrApi::Bytes, vals).map(|w| w.bytes).unwrap_or_default() }
+
+/// a script that reads a struct field by field, skipping some fields with the async skipper
+fn struct_script(r: &mut Rng, fs: &[(i16, Val)], skip_all: bool) -> String {
+    let mut s = String::from("(sb)");
+    for (_, v) in fs {
+        s.push_str(" (fb)");
+        if skip_all || r.chance(1, 2) { s.push_str(&format!(" (skip {})", v.tt().name())); } else { s.push_str(&format!(" (read {})", v.tt().name())); }
+        s.push_str(" (fe)");
+    }
+    s.push_str(" (fb) (se)");
+    s
+}
+
+fn gen_c12(r: &mut Rng, thorough: bool, out: &mut dyn Write) {
+    let n = |q: usize, t: usize| if thorough { t } else { q };
+    let protos = [Proto::Bin, Proto::Le, Proto::Cmp];
+    let uuid = Val::Uuid(*b"0123456789abcdef");
+    // ---- fixed small messages: every split point (thorough: every pair), byte-at-a-time with pendings
+    let small: Vec<Val> = vec![
+        Val::Struct(vec![(1, Val::I32(-2)), (2, Val::Bool(true)), (3, Val::Bin(b"hey".to_vec())), (20, Val::Bool(false))]),
+        Val::Struct(vec![(1, Val::Struct(vec![(5, Val::I64(1 << 40))])), (2, Val::I16(-300)), (3, Val::Dbl(0x400921fb54442d18))]),
+        Val::Struct(vec![(7, uuid.clone()), (8, Val::List(TT::Bool, vec![Val::Bool(true), Val::Bool(false)]))]),
+        Val::Map(TT::I8, TT::Binary, vec![(Val::I8(1), Val::Bin(vec![9, 9])), (Val::I8(-1), Val::Bin(vec![]))]),
+        Val::Map(TT::I32, TT::I32, vec![]),
+        Val::List(TT::I16, (0..16).map(|i| Val::I16(i * 1000 - 8000)).collect()),
+        Val::Set(TT::Struct, vec![Val::Struct(vec![]), Val::Struct(vec![(1, Val::I8(3))])]),
+        Val::I64(i64::MIN), Val::I32(i32::MAX), Val::I16(-1), Val::Bool(true), Val::Dbl(0x7ff8000000000001), Val::Bin(vec![]),
+    ];
+    for v in &small { for p in protos {
+        let b = enc_with(p, &[v.clone()]);
+        if b.len() > 48 { continue; }
+        let script = format!("(read {})", v.tt().name());
+        for c in 0..b.len() { let _ = writeln!(out, "a {} {} {}", p.name(), events_text(&b, &[c], &|_| 0), script); }
+        if thorough { for c1 in 1..b.len() { for c2 in c1 + 1..b.len() { let _ = writeln!(out, "a {} {} {}", p.name(), events_text(&b, &[c1, c2], &|i| i % 2), script); } } }
+        let all: Vec<usize> = (1..b.len()).collect();
+        let _ = writeln!(out, "a {} {} {}", p.name(), events_text(&b, &all, &|i| 1 + i % 2), script);
+        // trailing bytes belong to the next message: they must not be pulled
+        let mut b2 = b.clone(); b2.extend_from_slice(&[0xde, 0xad, 0xbe, 0xef]);
+        let _ = writeln!(out, "a {} {} {}", p.name(), events_text(&b2, &[b.len() / 2], &|_| 1), script);
+        // every truncation point: end of stream in the middle of the value
+        let step = if thorough || b.len() <= 12 { 1 } else { 3 };
+        for cut in (0..b.len()).step_by(step) { let _ = writeln!(out, "a {} {} {}", p.name(), events_text(&b[..cut], &[cut / 2], &|i| i % 2), script); }
+        // the async skipper on the same bytes; depth budgets around the value's nesting
+        let _ = writeln!(out, "a {} {} (skip {})", p.name(), events_text(&b2, &all, &|_| 0), v.tt().name());
+        for d in [0usize, v.depth() - 1, v.depth(), v.depth() + 1] { let _ = writeln!(out, "a {} {} (skipd {} {})", p.name(), events_text(&b, &[3], &|_| 0), v.tt().name(), d); }
+        if let Val::Struct(fs) = v {
+            let _ = writeln!(out, "a {} {} {}", p.name(), events_text(&b, &all, &|i| i % 2), struct_script(r, fs, true));
+            for _ in 0..3 { let _ = writeln!(out, "a {} {} {}", p.name(), random_events(r, &b), struct_script(r, fs, false)); }
+        }
+    } }
+    // ---- adversarial headers: both decoders must reject (the in-memory one at the header since f7447f5, the async one at end of stream)
+    for (p, h, t) in [
+        ("bin", "0f08ffffffff", "list"), ("bin", "0f087fffffff00000001", "list"), ("bin", "0b0800000003000000010000000200", "map"),
+        ("bin", "ffffffff", "binary"), ("bin", "80000000", "binary"), ("bin", "00000005616263", "binary"), ("le", "05000000616263", "binary"),
+        ("bin", "0f0500000000", "list"), ("bin", "0f0000000000", "list"), ("bin", "0f0100000000", "list"), ("bin", "0f0100000001", "list"),
+        ("bin", "050001", "struct"), ("bin", "0c00010c00010c000100", "struct"),
+        ("cmp", "f5ffffffff0f", "list"), ("cmp", "f5ffffffff07", "list"), ("cmp", "35020406", "list"), ("cmp", "3502", "list"), ("cmp", "e1", "list"), ("cmp", "0f", "list"), ("cmp", "1e", "list"),
+        ("cmp", "ffffffff0f", "binary"), ("cmp", "05616263", "binary"), ("cmp", "ffffffff0f55", "map"), ("cmp", "0155", "map"), ("cmp", "01f5", "map"),
+        ("cmp", "03", "bool"), ("cmp", "00", "bool"), ("cmp", "808080", "i16"), ("cmp", "80808080808080808080", "i64"), ("cmp", "ffffffffffffffffff7f", "i64"), ("cmp", "ffffff07", "i16"),
+        ("cmp", "f5", "struct"), ("cmp", "150e00", "struct"), ("cmp", "f100", "struct"), ("cmp", "1100", "struct"), ("cmp", "2100", "struct"),
+        ("bin", "05", "bool"), ("bin", "ff", "bool"), ("le", "0200010005", "struct"),
+    ] {
+        let b = unhex(h).unwrap();
+        let _ = writeln!(out, "a {} {} (read {})", p, events_text(&b, &[1], &|_| 1), t);
+        let _ = writeln!(out, "a {} {} (skip {})", p, events_text(&b, &[2], &|_| 0), t);
+    }
+    // ---- message envelopes
+    for p in protos { for (name, mt, seq) in [("", 1u8, 0i32), ("ping", 2, -1), ("a-rather-long-method-name", 4, i32::MIN), ("x", 3, i32::MAX)] {
+        let (mut b, _) = thrift::write_msg(p, name.as_bytes(), mt, seq).unwrap();
+        b.extend(enc_with(p, &[Val::Struct(vec![(1, Val::I32(7))])]));
+        let all: Vec<usize> = (1..b.len()).collect();
+        let _ = writeln!(out, "a {} {} (msg) (read struct)", p.name(), events_text(&b, &all, &|i| i % 2));
+        let _ = writeln!(out, "a {} {} (msg) (read struct)", p.name(), random_events(r, &b));
+        let _ = writeln!(out, "a {} {} (msg)", p.name(), events_text(&b[..b.len().min(5)], &[2], &|_| 0));
+    } }
+    for (p, h) in [("bin", "00000001"), ("bin", "80010005000000000000000000"), ("bin", "80020001000000000000000000"), ("le", "01008888000000000000000000"), ("le", "01000180"),
+                   ("cmp", "8221"), ("cmp", "8321010061"), ("cmp", "82a1010061"), ("cmp", "8201010061"), ("cmp", "82220061"), ("cmp", "8221ffffffff0f0161")] {
+        let _ = writeln!(out, "a {} {} (msg)", p, events_text(&unhex(h).unwrap(), &[1], &|_| 1));
+    }
+    // ---- random values, sequences, chunkings
+    for _ in 0..n(260, 9000) {
+        let p = *r.pick(&protos);
+        let k = 1 + r.below(3) as usize;
+        let vals: Vec<Val> = (0..k).map(|_| gen::gen_any(r, 4)).collect();
+        let mut b = enc_with(p, &vals);
+        if b.len() > 6000 { continue; }
+        let mut script: Vec<String> = vec![];
+        for v in &vals {
+            script.push(match (v, r.below(4)) {
+                (Val::Struct(fs), 0) => struct_script(r, fs, false),
+                (_, 1) => format!("(skip {})", v.tt().name()),
+                _ => format!("(read {})", v.tt().name()),
+            });
+        }
+        match r.below(6) {
+            0 => { let cut = r.below(b.len() as u64 + 1) as usize; b.truncate(cut); }          // end of stream mid-value
+            1 => { for _ in 0..r.below(5) { b.push(r.next() as u8); } }                          // bytes of the next message
+            2 => { if !b.is_empty() { let i = r.below(b.len() as u64) as usize; b[i] ^= 1 << r.below(8); } }   // one flipped bit
+            _ => {}
+        }
+        let _ = writeln!(out, "a {} {} {}", p.name(), random_events(r, &b), script.join(" "));
+    }
 }
 
 pub fn gen(stream: &str, tier: &str, seed: u64, out: &mut dyn Write) -> bool {
@@ -357,6 +703,7 @@ pub fn gen(stream: &str, tier: &str, seed: u64, out: &mut dyn Write) -> bool {
                 let _ = writeln!(out, "{}", line);
             }
         }
+        "C12" => gen_c12(&mut r, thorough, out),
         _ => return false,
     }
     true
